@@ -445,3 +445,421 @@ Proof.
   - rewrite den_length. lia.
   - discriminate.
 Qed.
+
+(* ------------------------------------------------------------------ the RFC 4291 reading of the two shapes *)
+Lemma split_on_no sep g : ~ In sep g -> split_on sep g = [g].
+Proof.
+  induction g as [|c g IH]; intros H; cbn [split_on]; [reflexivity|].
+  assert (E : (c =? sep) = false) by (apply N.eqb_neq; intros ->; apply H; left; reflexivity).
+  rewrite E, IH; [reflexivity|]. intros F. apply H. right. exact F.
+Qed.
+
+Lemma split_on_sep sep g rest : ~ In sep g -> split_on sep (g ++ sep :: rest) = g :: split_on sep rest.
+Proof.
+  induction g as [|c g IH]; intros H; cbn [split_on app].
+  - rewrite N.eqb_refl. reflexivity.
+  - assert (E : (c =? sep) = false) by (apply N.eqb_neq; intros ->; apply H; left; reflexivity).
+    rewrite E, IH; [reflexivity|]. intros F. apply H. right. exact F.
+Qed.
+
+Lemma hexs_no g : forallb is_hexdig g = true -> ~ In 58 g /\ ~ In 46 g.
+Proof.
+  intros H. rewrite forallb_forall in H. split; intros F; apply H in F; discriminate.
+Qed.
+
+Lemma h16_no g : is_h16 g -> ~ In 58 g /\ ~ In 46 g.
+Proof. intros [H _]. apply hexs_no. exact H. Qed.
+
+Lemma oct_no o : is_oct o -> ~ In 58 o /\ ~ In 46 o.
+Proof.
+  intros [H _]. apply hexs_no. rewrite forallb_forall in *. intros x Hx. apply digit_hexdig. auto.
+Qed.
+
+Lemma tail_no58 t : tail_ok t -> ~ In 58 (tail_text t).
+Proof.
+  destruct t as [|g|a b c d]; cbn [tail_ok tail_text]; intros H.
+  - intros [].
+  - apply h16_no. exact H.
+  - destruct H as [Ha [Hb [Hc Hd]]]. apply oct_no in Ha, Hb, Hc, Hd.
+    intros F. repeat (apply in_app_or in F; destruct F as [F|F]; [tauto|]; destruct F as [F|F]; [discriminate|]).
+    tauto.
+Qed.
+
+Lemma split_groupsc G x : Forall is_h16 G -> ~ In 58 x -> split_on 58 (groupsc G ++ x) = G ++ [x].
+Proof.
+  intros HG Hx. induction HG as [|g G Hg HG IH]; cbn [groupsc app].
+  - apply split_on_no. exact Hx.
+  - rewrite <- app_assoc. cbn [app]. rewrite split_on_sep by (apply h16_no; exact Hg). rewrite IH. reflexivity.
+Qed.
+
+Lemma group_bytes_h16 g : is_h16 g -> group_bytes g = gv g.
+Proof.
+  intros Hg. unfold group_bytes. destruct (mem 46 g) eqn:E; [|reflexivity].
+  apply mem_In in E. apply h16_no in Hg. tauto.
+Qed.
+
+Lemma group_bytes_ip4 a b c d : is_oct a -> is_oct b -> is_oct c -> is_oct d ->
+  group_bytes (a ++ 46 :: b ++ 46 :: c ++ 46 :: d) = [dec_value a; dec_value b; dec_value c; dec_value d].
+Proof.
+  intros Ha Hb Hc Hd. unfold group_bytes.
+  assert (E : mem 46 (a ++ 46 :: b ++ 46 :: c ++ 46 :: d) = true).
+  { apply mem_In. apply in_or_app. right. left. reflexivity. }
+  rewrite E. unfold ip4_value.
+  rewrite !split_on_sep by (apply oct_no; assumption).
+  rewrite split_on_no by (apply oct_no; assumption). reflexivity.
+Qed.
+
+Lemma flat_group_bytes G : Forall is_h16 G -> flat_map group_bytes G = den G.
+Proof.
+  intros HG. induction HG as [|g G Hg HG IH]; cbn [flat_map den]; [reflexivity|].
+  rewrite group_bytes_h16 by exact Hg. f_equal. exact IH.
+Qed.
+
+Lemma groups_bytes_shape G t : Forall is_h16 G -> tail_ok t -> (t = TNone -> G = []) ->
+  groups_bytes (groupsc G ++ tail_text t) = den G ++ tail_val t.
+Proof.
+  intros HG Ht Hn.
+  assert (Hcase : t = TNone \/ t <> TNone) by (destruct t; [left; reflexivity|right; discriminate..]).
+  destruct Hcase as [E|Hne].
+  - rewrite (Hn E). subst t. reflexivity.
+  - destruct (nc_groupsc G _ HG (nc_tail t Ht Hne)) as [c [r [E _]]].
+    unfold groups_bytes. rewrite E, <- E.
+    rewrite split_groupsc by (auto using tail_no58).
+    rewrite flat_map_app, flat_group_bytes by exact HG. f_equal.
+    cbn [flat_map]. rewrite app_nil_r.
+    destruct t as [|g|a b c0 d]; cbn [tail_ok tail_text tail_val] in *; [congruence| |].
+    + apply group_bytes_h16. exact Ht.
+    + apply group_bytes_ip4; apply Ht.
+Qed.
+
+Lemma groups_bytes_joinc L : Forall is_h16 L -> groups_bytes (joinc L) = den L.
+Proof.
+  intros HL. destruct L as [|x L'] eqn:EL; [reflexivity|]. rewrite <- EL in *.
+  destruct (@exists_last _ L) as [L0 [g E]]; [rewrite EL; discriminate|].
+  rewrite E in *. apply Forall_app in HL. destruct HL as [H0 Hg]. inversion Hg as [|? ? Hg' _]; subst.
+  rewrite joinc_snoc, den_app. cbn [den flat_map]. rewrite app_nil_r.
+  apply (groups_bytes_shape L0 (TH g)); [exact H0|exact Hg'|discriminate].
+Qed.
+
+Lemma fd_cons c r : (c =? 58) = false ->
+  find_dcolon (c :: r) = match find_dcolon r with Some (a, b) => Some (c :: a, b) | None => None end.
+Proof. intros H. destruct r as [|c2 r2]; [reflexivity|]. cbn [find_dcolon]. rewrite H. reflexivity. Qed.
+
+Lemma fd_colon c2 r : (c2 =? 58) = false ->
+  find_dcolon (58 :: c2 :: r) = match find_dcolon (c2 :: r) with Some (a, b) => Some (58 :: a, b) | None => None end.
+Proof. intros H. cbn [find_dcolon]. rewrite H, andb_false_r. reflexivity. Qed.
+
+Lemma fd_here rest : find_dcolon (58 :: 58 :: rest) = Some ([], rest).
+Proof. cbn [find_dcolon]. rewrite N.eqb_refl. reflexivity. Qed.
+
+Lemma fd_skip g x a b : ~ In 58 g -> find_dcolon x = Some (a, b) -> find_dcolon (g ++ x) = Some (g ++ a, b).
+Proof.
+  intros Hg Hx. induction g as [|c g IH]; cbn [app]; [exact Hx|].
+  rewrite fd_cons by (apply N.eqb_neq; intros ->; apply Hg; left; reflexivity).
+  rewrite IH; [reflexivity|]. intros F. apply Hg. right. exact F.
+Qed.
+
+Lemma fd_skip_none g x : ~ In 58 g -> find_dcolon x = None -> find_dcolon (g ++ x) = None.
+Proof.
+  intros Hg Hx. induction g as [|c g IH]; cbn [app]; [exact Hx|].
+  rewrite fd_cons by (apply N.eqb_neq; intros ->; apply Hg; left; reflexivity).
+  rewrite IH; [reflexivity|]. intros F. apply Hg. right. exact F.
+Qed.
+
+Lemma find_dcolon_joinc L rest : Forall is_h16 L ->
+  find_dcolon (joinc L ++ 58 :: 58 :: rest) = Some (joinc L, rest).
+Proof.
+  induction L as [|g L IH]; intros HL; [apply fd_here|].
+  inversion HL as [|? ? Hg HL']; subst. destruct L as [|g2 L].
+  - cbn [joinc]. rewrite <- (app_nil_r g) at 2. apply fd_skip; [apply h16_no; exact Hg|apply fd_here].
+  - rewrite joinc_cons2, <- app_assoc. cbn [app]. apply fd_skip; [apply h16_no; exact Hg|].
+    assert (Hnc : nc (joinc (g2 :: L) ++ 58 :: 58 :: rest)).
+    { inversion HL' as [|? ? Hg2 _]; subst. destruct L; [|rewrite joinc_cons2, <- app_assoc]; apply nc_h16; exact Hg2. }
+    destruct Hnc as [c2 [r2 [E Hc]]]. rewrite E, fd_colon by exact Hc. rewrite <- E, IH by exact HL'. reflexivity.
+Qed.
+
+Lemma find_dcolon_none G x : Forall is_h16 G -> ~ In 58 x -> find_dcolon (groupsc G ++ x) = None.
+Proof.
+  intros HG Hx. induction HG as [|g G Hg HG IH]; cbn [groupsc app].
+  - rewrite <- (app_nil_r x). apply fd_skip_none; [exact Hx|reflexivity].
+  - rewrite <- app_assoc. cbn [app]. apply fd_skip_none; [apply h16_no; exact Hg|].
+    destruct (groupsc G ++ x) as [|c2 r2] eqn:E; [reflexivity|].
+    assert (Hc : (c2 =? 58) = false).
+    { destruct G as [|g' G'].
+      - cbn [groupsc app] in E. apply N.eqb_neq. intros ->. apply Hx. rewrite E. left. reflexivity.
+      - inversion HG as [|? ? Hg' _]; subst. cbn [groupsc] in E. rewrite <- app_assoc in E. cbn [app] in E.
+        destruct (nc_h16 g' (58 :: groupsc G' ++ x) Hg') as [c3 [r3 [E3 Hc3]]].
+        cbn [app] in E3. rewrite E3 in E. inversion E; subst. exact Hc3. }
+    rewrite fd_colon by exact Hc. rewrite IH. reflexivity.
+Qed.
+
+Theorem spec_full L t : Forall is_h16 L -> tail_ok t -> t <> TNone ->
+  ip6_value (groupsc L ++ tail_text t) = den L ++ tail_val t.
+Proof.
+  intros HL Ht Hn. unfold ip6_value. rewrite find_dcolon_none by (auto using tail_no58).
+  apply groups_bytes_shape; auto. congruence.
+Qed.
+
+Theorem spec_zip L R t : Forall is_h16 L -> Forall is_h16 R -> tail_ok t -> (t = TNone -> R = []) ->
+  ip6_value (joinc L ++ 58 :: 58 :: groupsc R ++ tail_text t)
+  = den L ++ repeat 0 (16 - 2 * length L - 2 * length R - tail_len t) ++ den R ++ tail_val t.
+Proof.
+  intros HL HR Ht Hn. unfold ip6_value. rewrite find_dcolon_joinc by exact HL.
+  rewrite groups_bytes_joinc by exact HL. rewrite groups_bytes_shape by assumption.
+  rewrite app_length, !den_length, tail_val_length. f_equal. f_equal. f_equal. lia.
+Qed.
+
+(* ------------------------------------------------------------------ scanner = RFC 4291 on the shapes *)
+Theorem ip6_bytes_value_structured lit : ip6_shape lit ->
+  ip6_bytes lit = ip6_value lit /\ length (ip6_bytes lit) = 16%nat.
+Proof.
+  intros [L t HL Ht Hn Hlen | L R t HL HR Ht Hn Hlen].
+  - rewrite model_full, spec_full by assumption. split; [reflexivity|].
+    rewrite app_length, den_length, tail_val_length. exact Hlen.
+  - rewrite model_zip, spec_zip by assumption. split; [reflexivity|].
+    rewrite !app_length, !den_length, repeat_length, tail_val_length. lia.
+Qed.
+
+(* ------------------------------------------------------------------ the grammar produces the shapes *)
+Lemma inv_seq a b s : matches (Seq a b) s -> exists u t, s = u ++ t /\ matches a u /\ matches b t.
+Proof. inversion 1; subst; eauto. Qed.
+Lemma inv_alt a b s : matches (Alt a b) s -> matches a s \/ matches b s.
+Proof. inversion 1; subst; auto. Qed.
+Lemma inv_eps s : matches Eps s -> s = [].
+Proof. inversion 1; reflexivity. Qed.
+Lemma inv_chr l s : matches (Chr l) s -> exists c, s = [c] /\ In c l.
+Proof. inversion 1; subst; eauto. Qed.
+Lemma inv_ch c s : matches (ch c) s -> s = [c].
+Proof. intros H. apply inv_chr in H. destruct H as [x [-> [<-|[]]]]. reflexivity. Qed.
+
+Lemma inv_rep r n : forall s, matches (rep n r) s ->
+  exists l, length l = n /\ Forall (matches r) l /\ s = concat l.
+Proof.
+  induction n as [|n IH]; intros s H; cbn [rep] in H.
+  - apply inv_eps in H. subst. exists []. auto.
+  - apply inv_seq in H. destruct H as [u [t [-> [Hu Ht]]]]. destruct (IH _ Ht) as [l [Hl [Hf ->]]].
+    exists (u :: l). cbn [length concat]. auto.
+Qed.
+
+Lemma inv_upto r n : forall s, matches (upto n r) s ->
+  exists l, (length l <= n)%nat /\ Forall (matches r) l /\ s = concat l.
+Proof.
+  induction n as [|n IH]; intros s H; cbn [upto] in H.
+  - apply inv_eps in H. subst. exists []. auto.
+  - apply inv_alt in H. destruct H as [H|H].
+    + apply inv_eps in H. subst. exists []. cbn [length]. split; [lia|auto].
+    + apply inv_seq in H. destruct H as [u [t [-> [Hu Ht]]]]. destruct (IH _ Ht) as [l [Hl [Hf ->]]].
+      exists (u :: l). cbn [length concat]. split; [lia|auto].
+Qed.
+
+Lemma chr_list X l : Forall (matches (Chr X)) l ->
+  length (concat l) = length l /\ forall c, In c (concat l) -> In c X.
+Proof.
+  induction 1 as [|s l Hs Hl [IH1 IH2]]; cbn [concat length]; [split; [reflexivity|intros c []]|].
+  apply inv_chr in Hs. destruct Hs as [c [-> Hc]]. cbn [app length]. split; [lia|].
+  intros x [<-|Hx]; auto.
+Qed.
+
+Lemma h16_inv s : matches h16 s -> is_h16 s.
+Proof.
+  intros H. apply inv_seq in H. destruct H as [u [t [-> [Hu Ht]]]].
+  apply inv_chr in Hu. destruct Hu as [c [-> Hc]].
+  apply inv_upto in Ht. destruct Ht as [l [Hl [Hf ->]]]. apply chr_list in Hf. destruct Hf as [E Hin].
+  split.
+  - cbn [app forallb]. rewrite (hexdig_in c Hc). apply forallb_forall. intros x Hx. apply hexdig_in. auto.
+  - cbn [app length]. lia.
+Qed.
+
+Lemma h16c_inv s : matches h16c s -> exists g, is_h16 g /\ s = g ++ [58].
+Proof.
+  intros H. apply inv_seq in H. destruct H as [u [t [-> [Hu Ht]]]]. apply inv_ch in Ht. subst.
+  exists u. split; [apply h16_inv; exact Hu|reflexivity].
+Qed.
+
+Lemma h16c_list l : Forall (matches h16c) l ->
+  exists G, length G = length l /\ Forall is_h16 G /\ concat l = groupsc G.
+Proof.
+  induction 1 as [|s l Hs Hl [G [E [HG EG]]]]; [exists []; auto|].
+  apply h16c_inv in Hs. destruct Hs as [g [Hg ->]].
+  exists (g :: G). cbn [length concat groupsc]. rewrite EG, <- app_assoc. cbn [app]. auto.
+Qed.
+
+Lemma rep_h16c_inv n s : matches (rep n h16c) s -> exists G, length G = n /\ Forall is_h16 G /\ s = groupsc G.
+Proof.
+  intros H. apply inv_rep in H. destruct H as [l [Hl [Hf ->]]].
+  destruct (h16c_list l Hf) as [G [E [HG EG]]]. exists G. split; [lia|auto].
+Qed.
+
+Lemma upto_h16c_inv n s : matches (upto n h16c) s ->
+  exists G, (length G <= n)%nat /\ Forall is_h16 G /\ s = groupsc G.
+Proof.
+  intros H. apply inv_upto in H. destruct H as [l [Hl [Hf ->]]].
+  destruct (h16c_list l Hf) as [G [E [HG EG]]]. exists G. split; [lia|auto].
+Qed.
+
+Lemma in_range_digit c lo n : In c (range lo n) -> 48 <= lo -> lo + N.of_nat n <= 58 -> is_digit c = true.
+Proof. intros H H1 H2. apply in_range_range in H. unfold is_digit, in_range. lia. Qed.
+
+Lemma dec_octet_inv s : matches dec_octet s -> is_oct s.
+Proof.
+  unfold dec_octet. cbn [alts seqs]. intros H.
+  repeat match goal with
+  | H : matches (Alt _ _) _ |- _ => apply inv_alt in H; destruct H as [H|H]
+  end;
+  repeat match goal with
+  | H : matches (Seq _ _) _ |- _ =>
+    let u := fresh "u" in let t := fresh "t" in let Hu := fresh "Hu" in let Ht := fresh "Ht" in
+    apply inv_seq in H; destruct H as [u [t [-> [Hu Ht]]]]
+  end;
+  repeat match goal with
+  | H : matches (ch _) _ |- _ => apply inv_ch in H; subst
+  | H : matches (Chr _) _ |- _ =>
+    let c := fresh "c" in let Hc := fresh "Hc" in
+    apply inv_chr in H; destruct H as [c [-> Hc]]; apply in_range_range in Hc
+  end;
+  cbn [app]; unfold is_oct, dec_value; cbn [forallb length fold_left];
+  unfold is_digit, in_range; (split; [|split]); lia.
+Qed.
+
+Lemma ip4_inv s : matches IPv4address s ->
+  exists a b c d, is_oct a /\ is_oct b /\ is_oct c /\ is_oct d /\ s = a ++ 46 :: b ++ 46 :: c ++ 46 :: d.
+Proof.
+  unfold IPv4address. cbn [seqs]. intros H.
+  apply inv_seq in H. destruct H as [a [t1 [-> [Ha H]]]].
+  apply inv_seq in H. destruct H as [p1 [t2 [-> [Hp1 H]]]].
+  apply inv_seq in H. destruct H as [b [t3 [-> [Hb H]]]].
+  apply inv_seq in H. destruct H as [p2 [t4 [-> [Hp2 H]]]].
+  apply inv_seq in H. destruct H as [c [t5 [-> [Hc H]]]].
+  apply inv_seq in H. destruct H as [p3 [d [-> [Hp3 Hd]]]].
+  apply inv_ch in Hp1, Hp2, Hp3. subst.
+  apply dec_octet_inv in Ha, Hb, Hc, Hd.
+  exists a, b, c, d. repeat (split; [assumption|]). reflexivity.
+Qed.
+
+(* rep n ( h16 ":" ) ls32, and the last two alternatives' tails *)
+Lemma ls32_inv s : matches ls32 s ->
+  exists G t, Forall is_h16 G /\ tail_ok t /\ t <> TNone /\ (2 * length G + tail_len t = 4)%nat
+              /\ s = groupsc G ++ tail_text t.
+Proof.
+  intros H. apply inv_alt in H. destruct H as [H|H].
+  - cbn [seqs] in H. apply inv_seq in H. destruct H as [g1 [t [-> [H1 H]]]].
+    apply inv_seq in H. destruct H as [c [g2 [-> [Hc H2]]]]. apply inv_ch in Hc. subst c.
+    apply h16_inv in H1, H2. exists [g1], (TH g2). cbn [groupsc tail_text tail_ok tail_len length].
+    refine (conj _ (conj H2 (conj _ (conj eq_refl _))));
+      [constructor; [exact H1|constructor]|discriminate|rewrite <- app_assoc; reflexivity].
+  - apply ip4_inv in H. destruct H as [a [b [c [d [Ha [Hb [Hc [Hd ->]]]]]]]].
+    exists [], (T4 a b c d). cbn [groupsc tail_text tail_ok tail_len length app].
+    refine (conj (Forall_nil _) (conj (conj Ha (conj Hb (conj Hc Hd))) (conj _ (conj eq_refl eq_refl)))). discriminate.
+Qed.
+
+Lemma tailpart_inv s1 s2 n : (exists G, length G = n /\ Forall is_h16 G /\ s1 = groupsc G) -> matches ls32 s2 ->
+  exists G t, Forall is_h16 G /\ tail_ok t /\ t <> TNone /\ (2 * length G + tail_len t = 2 * n + 4)%nat
+              /\ s1 ++ s2 = groupsc G ++ tail_text t.
+Proof.
+  intros [G1 [E1 [H1 ->]]] H2. apply ls32_inv in H2. destruct H2 as [G2 [t [HG2 [Ht [Hn [Hl ->]]]]]].
+  exists (G1 ++ G2), t. rewrite groupsc_app, app_length, <- app_assoc.
+  repeat split; auto; [apply Forall_app; auto|lia].
+Qed.
+
+Lemma pre_inv n s : matches (Rfc3986.pre n) s -> exists L, Forall is_h16 L /\ (length L <= n + 1)%nat /\ s = joinc L.
+Proof.
+  intros H. apply inv_alt in H. destruct H as [H|H].
+  - apply inv_eps in H. subst. exists []. cbn [length]. repeat split; auto; lia.
+  - apply inv_seq in H. destruct H as [u [g [-> [Hu Hg]]]]. apply upto_h16c_inv in Hu.
+    destruct Hu as [G [Hl [HG ->]]]. apply h16_inv in Hg.
+    exists (G ++ [g]). rewrite joinc_snoc, app_length. cbn [length].
+    repeat split; auto; [apply Forall_app; auto|lia].
+Qed.
+
+Lemma opt_h16_inv s : matches (opt h16) s -> exists L, Forall is_h16 L /\ (length L <= 1)%nat /\ s = joinc L.
+Proof.
+  intros H. apply inv_alt in H. destruct H as [H|H].
+  - apply inv_eps in H. subst. exists []. cbn [length]. repeat split; auto.
+  - apply h16_inv in H. exists [s]. cbn [length joinc]. repeat split; auto.
+Qed.
+
+Lemma dcolon_inv s : matches dcolon s -> s = [58; 58].
+Proof.
+  intros H. apply inv_seq in H. destruct H as [u [t [-> [Hu Ht]]]]. apply inv_ch in Hu, Ht. subst. reflexivity.
+Qed.
+
+(* left "::" right *)
+Lemma zip_shape L G t n s0 s1 s2 k :
+  Forall is_h16 L -> (length L <= k)%nat -> s0 = joinc L -> s1 = [58; 58] ->
+  Forall is_h16 G -> tail_ok t -> (t = TNone -> G = []) -> (2 * length G + tail_len t = n)%nat ->
+  s2 = groupsc G ++ tail_text t -> (2 * k + n <= 14)%nat ->
+  ip6_shape (s0 ++ s1 ++ s2).
+Proof.
+  intros HL Hk -> -> HG Ht Hn Hl -> Hb. cbn [app]. apply ShZip; auto. lia.
+Qed.
+
+Theorem ip6_shape_of_matches lit : matches IPv6address lit -> ip6_shape lit.
+Proof.
+  unfold IPv6address. cbn [alts]. intros H.
+  repeat match goal with
+  | H : matches (Alt _ _) _ |- _ => apply inv_alt in H; destruct H as [H|H]
+  end; cbn [seqs] in H.
+  - (* 6( h16 ":" ) ls32 *)
+    apply inv_seq in H. destruct H as [s1 [s2 [-> [H1 H2]]]]. apply rep_h16c_inv in H1.
+    destruct (tailpart_inv s1 s2 6 H1 H2) as [G [t [HG [Ht [Hn [Hl ->]]]]]].
+    apply ShFull; auto.
+  - (* "::" 5( h16 ":" ) ls32 *)
+    apply inv_seq in H. destruct H as [s1 [s2 [-> [H1 H]]]]. apply dcolon_inv in H1.
+    apply inv_seq in H. destruct H as [s3 [s4 [-> [H3 H4]]]]. apply rep_h16c_inv in H3.
+    destruct (tailpart_inv s3 s4 5 H3 H4) as [G [t [HG [Ht [Hn [Hl E]]]]]].
+    change (s1 ++ s3 ++ s4) with ([] ++ s1 ++ s3 ++ s4).
+    eapply (zip_shape [] G t _ _ _ _ 0); eauto. congruence.
+  - (* [ h16 ] "::" 4( h16 ":" ) ls32 *)
+    apply inv_seq in H. destruct H as [s0 [s [-> [H0 H]]]]. apply opt_h16_inv in H0.
+    destruct H0 as [L [HL [HLl ->]]].
+    apply inv_seq in H. destruct H as [s1 [s2 [-> [H1 H]]]]. apply dcolon_inv in H1.
+    apply inv_seq in H. destruct H as [s3 [s4 [-> [H3 H4]]]]. apply rep_h16c_inv in H3.
+    destruct (tailpart_inv s3 s4 4 H3 H4) as [G [t [HG [Ht [Hn [Hl E]]]]]].
+    eapply (zip_shape L G t _ _ _ _ 1); eauto. congruence.
+  - (* [ *1( h16 ":" ) h16 ] "::" 3( h16 ":" ) ls32 *)
+    apply inv_seq in H. destruct H as [s0 [s [-> [H0 H]]]]. apply pre_inv in H0.
+    destruct H0 as [L [HL [HLl ->]]].
+    apply inv_seq in H. destruct H as [s1 [s2 [-> [H1 H]]]]. apply dcolon_inv in H1.
+    apply inv_seq in H. destruct H as [s3 [s4 [-> [H3 H4]]]]. apply rep_h16c_inv in H3.
+    destruct (tailpart_inv s3 s4 3 H3 H4) as [G [t [HG [Ht [Hn [Hl E]]]]]].
+    eapply (zip_shape L G t _ _ _ _ 2); eauto. congruence.
+  - (* [ *2( h16 ":" ) h16 ] "::" 2( h16 ":" ) ls32 *)
+    apply inv_seq in H. destruct H as [s0 [s [-> [H0 H]]]]. apply pre_inv in H0.
+    destruct H0 as [L [HL [HLl ->]]].
+    apply inv_seq in H. destruct H as [s1 [s2 [-> [H1 H]]]]. apply dcolon_inv in H1.
+    apply inv_seq in H. destruct H as [s3 [s4 [-> [H3 H4]]]]. apply rep_h16c_inv in H3.
+    destruct (tailpart_inv s3 s4 2 H3 H4) as [G [t [HG [Ht [Hn [Hl E]]]]]].
+    eapply (zip_shape L G t _ _ _ _ 3); eauto. congruence.
+  - (* [ *3( h16 ":" ) h16 ] "::" h16 ":" ls32 *)
+    apply inv_seq in H. destruct H as [s0 [s [-> [H0 H]]]]. apply pre_inv in H0.
+    destruct H0 as [L [HL [HLl ->]]].
+    apply inv_seq in H. destruct H as [s1 [s2 [-> [H1 H]]]]. apply dcolon_inv in H1.
+    apply inv_seq in H. destruct H as [s3 [s4 [-> [H3 H4]]]]. apply h16c_inv in H3.
+    destruct H3 as [g [Hg ->]].
+    assert (H3 : exists G, length G = 1%nat /\ Forall is_h16 G /\ g ++ [58] = groupsc G).
+    { exists [g]. cbn [length groupsc]. auto. }
+    destruct (tailpart_inv _ s4 1 H3 H4) as [G [t [HG [Ht [Hn [Hl E]]]]]].
+    eapply (zip_shape L G t _ _ _ _ 4); eauto. congruence.
+  - (* [ *4( h16 ":" ) h16 ] "::" ls32 *)
+    apply inv_seq in H. destruct H as [s0 [s [-> [H0 H]]]]. apply pre_inv in H0.
+    destruct H0 as [L [HL [HLl ->]]].
+    apply inv_seq in H. destruct H as [s1 [s2 [-> [H1 H2]]]]. apply dcolon_inv in H1.
+    apply ls32_inv in H2. destruct H2 as [G [t [HG [Ht [Hn [Hl E]]]]]].
+    eapply (zip_shape L G t _ _ _ _ 5); eauto. congruence.
+  - (* [ *5( h16 ":" ) h16 ] "::" h16 *)
+    apply inv_seq in H. destruct H as [s0 [s [-> [H0 H]]]]. apply pre_inv in H0.
+    destruct H0 as [L [HL [HLl ->]]].
+    apply inv_seq in H. destruct H as [s1 [s2 [-> [H1 H2]]]]. apply dcolon_inv in H1.
+    apply h16_inv in H2.
+    eapply (zip_shape L [] (TH s2) 2 _ _ _ 6); eauto; try reflexivity; try discriminate; try lia.
+  - (* [ *6( h16 ":" ) h16 ] "::" *)
+    apply inv_seq in H. destruct H as [s0 [s1 [-> [H0 H1]]]]. apply pre_inv in H0.
+    destruct H0 as [L [HL [HLl ->]]]. apply dcolon_inv in H1.
+    rewrite <- (app_nil_r s1).
+    eapply (zip_shape L [] TNone 0 _ _ _ 7); eauto; try reflexivity; try exact I; try lia.
+Qed.
+
+(* MAIN THEOREM: for every text of the rule IPv6address, the stored bytes are the RFC 4291 value *)
+Theorem ip6_bytes_value lit : matches IPv6address lit ->
+  ip6_bytes lit = ip6_value lit /\ length (ip6_bytes lit) = 16%nat.
+Proof. intros H. apply ip6_bytes_value_structured. apply ip6_shape_of_matches. exact H. Qed.
